@@ -319,7 +319,11 @@ func (s *vfSim) onYield(_ *Association, side int, site int) {
 	s.mu.Lock()
 	s.hookOrder = vfHash(s.hookOrder, 0x100+uint64(site), uint64(side))
 	s.mu.Unlock()
-	switch (h >> 12) % 4 {
+	mode := (h >> 12) % 4
+	if s.spec.x("yield_nosleep", 0) == 1 {
+		mode %= 2 // only scheduler yields: a virtual sleep would make a half-finished operation look quiescent
+	}
+	switch mode {
 	case 0:
 		runtime.Gosched()
 	case 1:
